@@ -3,9 +3,42 @@ C16 — property theorems (only). Model: `HydroVerif/Model/C16.lean` (+ grid geo
 helper lemmas: `Lemmas/C16.lean`, `Lemmas/C07Grid.lean`, `Lemmas/C07Coord.lean`.
 
 Part A holds for every numeric instance of the model (also the `Float` one the driver runs): it only uses the
-integer structure of the loops. Parts B–D are over any ordered field with a floor function (`ℚ`, `ℝ`): exact
+integer structure of the loops. Parts B–E are over any ordered field with a floor function (`ℚ`, `ℝ`): exact
 arithmetic; IEEE rounding is covered by the correspondence, not by these theorems. Every statement holds for all
-grid shapes, all cell lists (any length, any order, repeats allowed), all point lists.
+grid shapes, all cell lists (any length, any order, repeats, invalid numbers where stated), all point lists.
+Every model function named here is executed by `Drivers/C16.lean` and compared with the real code.
+
+Clause of the property -> theorems -> what stays outside the theorems
+* Intersecting a catchment with a coarser grid assigns every catchment cell whose centre falls inside the grid to exactly one grid cell (all cell sets, all grids, arbitrary offsets, partial or no overlap)
+    theorems: centre_inside_listed_once, centre_outside_not_counted, cellOfPt_nonneg_iff, cellOfPt_eq_iff, cIntersect_mem_keys_iff, intersect_error_iff (no overlap <-> the ValueError)
+    outside: exact arithmetic (ordered field with floor); a centre within 1e-9 cells of a coarse edge may be located differently in IEEE arithmetic (Float correspondence only). 'inside' = half-open extent, footprints half-open: an edge centre goes right/up.
+* its weight is the number of such cells times the ratio of cell areas
+    theorems: intersect_result_weight (on the returned lists, any cell list), intersect_weight_counts_centres_any, intersect_weight_counts_centres, cIntersect_weight
+    outside: rounding of the repeated addition (Float correspondence, bit-exact on the unchanged tree)
+* weights times grid-cell area sum to the catchment area inside the grid
+    theorems: intersect_result_area (on the returned weights), intersect_area_conserved_any, intersect_area_conserved, cIntersect_total
+    outside: rounding
+* each grid cell appears once
+    theorems: intersect_result_nodup, cIntersect_keys_nodup (every numeric instance, also Float), cIntersect_keys_valid, cIntersect_length_le (buffers large enough)
+    outside: nothing
+* the returned weight grid places every weight at the matching row and column of the parent grid
+    theorems: intersect_weight_placed, intersect_zero_elsewhere, intersect_entry_cases (every entry is a listed weight at its parent row/col, or 0), intersect_subgrid_range (attained bounds, shape), intersect_subgrid_corner, intersect_subgrid_cell_centre (sub-grid cell (i,j) = parent cell (i+rows_start, j+cols_start)), intersect_lists
+    outside: numpy fancy-index assignment, np.min/np.max/np.unique, Grid constructor/data setter are modelled (sequential element assignment, folds), tied by the correspondence; parent name/ncols/nrows/cellsize/corner attributes copied by set_parent_attributes are checked by the oracle only (plain attribute copies)
+* filled / unfilled area
+    theorems: catchment_intersect_selects, catchment_intersect_error_iff, voronoiPy_points (Voronoi always uses the unfilled area)
+    outside: how the two lists are produced (delineate_area, binary_fill_holes, from_dict): C06 / C13
+* Voronoi weights are non-negative
+    theorems: cVoronoi_nonneg, cVoronoi_ok_inv
+    outside: needs >= 1 cell (0 cells: NaN in the code, `none` in the model: cVoronoi_noCells)
+* Voronoi weights sum to 1
+    theorems: cVoronoi_sum_one
+    outside: rounding of count/ncells and of the sum (oracle: 1e-12)
+* Voronoi weights equal the fraction of catchment cells closest to each point; equidistant ties resolved to the lowest index; 1 to 6 points anywhere (any number in the theorems)
+    theorems: cVoronoi_weight, nearest_is_closest_lowest_index, voronoiPy_points, voronoiPy_flat_pair
+    outside: the distance function is a parameter (any function; sqrt(dx*dx+dy*dy) in the driver): two distinct points within rounding of a tie may be ordered differently in IEEE arithmetic; NaN / inf coordinates are outside the quantifier and not sent to the model
+* (implicit) rejected input of the wrappers: no overlap, no points, grid without rows/columns, catchment not delineated, points argument without two columns
+    theorems: intersect_error_iff, catchment_intersect_error_iff, cVoronoi_error_iff, cVoronoi_noPoints, voronoiPy_error_iff
+    outside: exception classes and messages are incidental: the correspondence requires a rejection where the model rejects and the named guard when the harness can attribute it; 3-D points arrays, ragged lists, non-numeric input: numpy's own errors, not modelled
 -/
 import HydroVerif.Lemmas.C16
 import Mathlib.Data.Rat.Floor
